@@ -21,6 +21,8 @@ pub struct LockstepState {
     pub old_grants: Vec<MsgKey>,
     /// one of them was delivered during the phase (history precondition of a known finding)
     pub stale_grant_delivered: bool,
+    /// the leader's configuration when the phase began (a membership change ends the scenario)
+    pub conf: ConfShape,
 }
 
 fn is_vote_req(t: MessageType) -> bool {
@@ -558,6 +560,14 @@ impl World {
             let e = self.ghost.max_term_released.entry(n).or_insert(0);
             if promise_term > *e {
                 *e = promise_term;
+            }
+        }
+        if t == MessageType::MsgAppendResponse && !m.reject {
+            let e = self.ghost.acked.entry(n).or_insert((0, 0));
+            if m.term > e.0 {
+                *e = (m.term, m.index);
+            } else if m.term == e.0 && m.index > e.1 {
+                e.1 = m.index;
             }
         }
         if !early {
